@@ -33,7 +33,7 @@ def body(c):
     with open(os.path.join(d, "G.cfg"), "w") as f:
         f.write("SPECIFICATION GenSpec\nCONSTANTS\n  Keys = {1, 2}\n  MaxTs = 4\n  FileCap = 2\n  MaxFiles = 4\n"
                 "  CountGetItems = FALSE\n  SkipInFlightFile = FALSE\n  SafeWriteBack = FALSE\n  HistLen = %d\nINVARIANTS Emit\n" % (14 if q else 16))
-    gen = vlib.run_tlc(d, "VLogGCGen", "G.cfg", timeout=900, workers=4, simulate=(150 if q else 3000), depth=(15 if q else 17), seed=c.seed)
+    gen = vlib.run_tlc(d, "VLogGCGen", "G.cfg", timeout=900, workers=4, simulate=(4000 if q else 20000), depth=(15 if q else 17), seed=c.seed)
     if not gen.ok:
         raise Inconclusive("VLogGCGen failed: %s" % gen.error_trace[:1500])
     seen, cases = set(), []
@@ -44,12 +44,48 @@ def body(c):
             cases.append(h)
     rnd = random.Random(c.seed)
     rnd.shuffle(cases)
-    cases = cases[:(700 if q else 20000)]
+
+    def window(h):
+        """delete and compaction between the rewrite's scan and its write-back (the #2286 window)"""
+        ops = [s["op"] for s in h]
+        for i, o in enumerate(ops):
+            if o == "gcScan":
+                j = next((x for x in range(i + 1, len(ops)) if ops[x] in ("gcWriteBack", "gcDelete")), None)
+                if j and "del" in ops[i + 1:j] and "compact" in ops[i + 1:j] and ops[j] == "gcWriteBack":
+                    d = i + 1 + ops[i + 1:j].index("del")
+                    if "compact" in ops[d:j]:
+                        return True
+        return False
+    def iter_across_delete(h):
+        """an iterator is open when the rewrite removes its file, a compaction ran while it was open,
+        and no request was in flight at the scan"""
+        ops = [s["op"] for s in h]
+        for j, o in enumerate(ops):
+            if o != "gcDelete":
+                continue
+            i = max(x for x in range(j) if ops[x] == "gcScan")
+            if ops[:i].count("putVlog") > ops[:i].count("putMem"):
+                continue
+            if ops[:j].count("iterOpen") > ops[:j].count("iterClose"):
+                io = max(x for x in range(j) if ops[x] == "iterOpen")
+                if "compact" in ops[io:j]:
+                    return True
+        return False
+    win = [h for h in cases if window(h)]
+    itd = [h for h in cases if iter_across_delete(h) and not window(h)]
+    rest = [h for h in cases if not window(h) and not iter_across_delete(h)]
+    nwin = 150 if q else 4000
+    cases = win[:nwin] + itd[:nwin] + rest[:(700 if q else 20000) - min(len(win), nwin) - min(len(itd), nwin)]
+    c.cov["schedules_with_delete_and_compaction_inside_gc_window"] = min(len(win), nwin)
+    c.cov["schedules_with_iterator_open_across_file_deletion"] = min(len(itd), nwin)
     # three fixed schedules (one per counterexample class TLC finds for the code-as-it-is switches),
     # so that every run exercises them
     canon = os.path.join(os.path.dirname(os.path.abspath(__file__)), "data", "C15_canonical.ndjson")
     if os.path.exists(canon):
         cases = [json.loads(l) for l in open(canon) if l.strip()] + cases
+    # every schedule runs in one of two tree shapes: 2 levels (the compaction target is the last level)
+    # or 3 levels with a tiny BaseLevelSize (the target is not the last level)
+    cases = [{"deep": i % 2 == 1, "steps": h} for i, h in enumerate(cases)]
     c.cov["tlc_runs"].append({"config": "gen:VLogGCGen", "cases": len(cases), "wall_s": round(gen.wall, 1)})
     binp = vlib.go_build("cmd/gcreplay")
     sd = vlib.scratch("gc-")
@@ -76,7 +112,7 @@ def body(c):
     bad = [r for r in results if not r["ok"]]
     ops = {}
     for h in cases:
-        for s in h:
+        for s in h["steps"]:
             ops[s["op"]] = ops.get(s["op"], 0) + 1
     c.cov["engines"].append({"replay": "VLogGCGen schedules on the real DB", "cases": len(cases), "deviations": len(bad),
                              "steps_by_kind": ops, "wall_s": round(time.time() - t0, 1)})
@@ -95,18 +131,18 @@ def body(c):
         if rc != 0 or not out.strip() or json.loads(out.splitlines()[0])["ok"]:
             log("GC deviation did not reproduce:", r["sig"])
             continue
-        c.violation("gc:" + r["sig"], r.get("detail"), {"schedule": [(s["op"], s["k"], s["f"]) for s in cases[r["case"]]],
-                                                         "full": cases[r["case"]]})
+        c.violation("gc:" + r["sig"], r.get("detail"), {"schedule": [(s["op"], s["k"], s["f"]) for s in cases[r["case"]]["steps"]],
+                                                         "deep": cases[r["case"]]["deep"], "full": cases[r["case"]]})
     if c.cov.get("harness_trouble", 0) > len(cases) // 10:
         raise Inconclusive("too many harness problems in gcreplay: %d" % c.cov["harness_trouble"])
-    full = set(json.dumps([(s["op"], s["k"], s["f"]) for s in h]) for h in cases
-               if any(s["op"] == "gcDelete" for s in h) or any(s["op"] == "gcWriteBack" for s in h))
+    full = set(json.dumps([(s["op"], s["k"], s["f"]) for s in h["steps"]]) for h in cases
+               if any(s["op"] in ("gcDelete", "gcWriteBack") for s in h["steps"]))
     c.add_cases(len(cases), full, traces=len(cases))
     c.cov["rule"] = ("schedule = behaviour of VLogGCGen (puts split into vlog write / memtable write, deletes, watermark moves, "
                      "compactions, rewrite phases, iterator and Get-item lifetimes); non-trivial = the rewrite proceeds past its scan")
     c.cov["exhaustive"] = False
     if cases:
-        c.sample([(s["op"], s["k"], s["f"]) for s in cases[0]])
+        c.sample([(s["op"], s["k"], s["f"]) for s in cases[0]["steps"]])
     c.assumptions += ["the LSM tree is abstracted to one level in VLogGC.tla; the level-0 ordering hazard for two copies of one "
                       "k@ts (DESIGN section 7) is outside this module",
                       "write-back of all scanned records is one step (valueLog.rewrite offers no schedule point inside a batch)"]
